@@ -3,8 +3,7 @@ from .pdus import *  # noqa: F403
 
 PROPERTY = "C06"
 OUTSIDE = ["lists longer than listed (filestore responses, options, segment requests), names/values longer than listed",
-           "options of TLV types the library cannot build", "segmentation-control bit fixed to 0 for file directives "
-           "(the standard says it is always 0 there)",
+           "options of TLV types the library cannot build",
            "parameter sets the standard excludes: a fault location together with condition code 'no error' "
            "(EOF, Finished) or 'unsupported checksum type' (Finished)",
            "file-size values above 2^66 in the 'fails rather than truncates' clause"]
@@ -46,6 +45,12 @@ def h_pdu(ctx, kind, cfg, var, twin=False):
         u.pdu_header.pdu_type == 0))
     e, raw2 = call(u.pack)
     ctx.holds("repack identical", e is None and raw2 == raw, exc_name(e))
+    earlier_result_survives(ctx, lambda: sym_and(b.check(u), u == pdu, u.packet_len == len(raw), u.pack() == raw,
+                                                 u.pdu_header.source_entity_id.value == b.v["src"],
+                                                 u.pdu_header.transaction_seq_num.byte_len == b.v["seqw"],
+                                                 u.pdu_header.crc_flag == b.v["crc"], u.pdu_header.file_flag == b.v["large"]),
+                            [(lambda o=o: b.cls.unpack(o)) for o in other_packets(kind, cfg, var)])
+    pack_hands_out_fresh_buffers(ctx, pdu.pack, ref)
     if twin:
         ctx.holds("twin", raw != ref)
 
